@@ -17,7 +17,7 @@ use crate::{
     gen::{ctx_strategy, Cfg, CtxSpec, SeedSpec, SlotSpec, Triple, TripleSpec, BITS},
     refimpl::Proof,
     runner::{guarded, setup, SKIP, no_fixed, sub, CaseLog, PropertyDef, RunCtx, INCONCLUSIVE},
-    tapx::{challenge_scalar, challenges, tapped},
+    tapx::{challenge_scalar, challenges, tapped_prover},
 };
 
 #[derive(Clone, Debug, Serialize, Deserialize)]
@@ -171,7 +171,7 @@ pub fn oracle(_ctx: &RunCtx, spec: &WipeSpec, log: &mut CaseLog) -> Result<(), S
     };
     let t = Triple::<R>::build(&tspec)?;
     // a first, tapped run of the same deterministic case gives z (tap is disarmed for the captured runs)
-    let (p0, ev) = tapped(|| guarded(|| t.prove()));
+    let (p0, ev) = tapped_prover(|| guarded(|| t.prove()));
     let p0 = setup(p0, "the prover refused or panicked on a valid witness (C01's subject)")?;
     let ch = challenges(&ev);
     let z = challenge_scalar(&ch[1]);
